@@ -135,6 +135,7 @@ func rulesC01(c *Ctx) {
 	// ---- (c) proposal cache completeness
 	ix := c.P.BuildIndex()
 	c01Round4(c, ix)
+	c01Round5(c, ix)
 	const pkABCI = "consensus/cometbft/abci"
 	if pk := c.P.Pkg(pkABCI); pk != nil {
 		if obj := pk.Types.Scope().Lookup("proposalState"); obj != nil {
